@@ -126,7 +126,13 @@ class Repeat(addons.AddonMainTask, block.SBlock):
                     data = await asyncio.wait_for(self._queue.get(), self._interval)
                     repeat = 0
                 except asyncio.TimeoutError:
-                    repeat += 1
+                    if self._queue.empty():
+                        repeat += 1
+                    else:
+                        # a new event arrived at the very moment of the timeout and
+                        # was forwarded already: do not re-send the old one after it
+                        data = self._queue.get_nowait()
+                        repeat = 0
 
             if repeat > 0:  # skip the original event
                 self.set_output(repeat)
